@@ -178,7 +178,7 @@ def _check_to_vec(ctx, fn, tagged):
                     good = (inner[0] == "tryok" and is_call(inner[1], "common::AsCborValue::to_cbor_value")
                             and inner[1][2] == (("param", 0),))
                 else:
-                    if inner[0] == "aggr" and inner[1] == "ciborium::Value" and inner[2] == "Tag":
+                    if inner[0] == "aggr" and inner[1] == "ciborium::value::Value" and inner[2] == "Tag":
                         f = dict(inner[3])
                         tagv, boxed = f.get("0"), f.get("1")
                         good = (tagv == ("constdef", "common::TaggedCborSerializable::TAG")
@@ -208,7 +208,7 @@ def _check_from_tagged(ctx, fn):
         ok_arg = False
         if arg and arg[0] == "deref" and arg[1][0] == "field" and arg[1][2] == "1":
             pair = arg[1][1]
-            ok_arg = (pair[0] == "tryok" and is_call(pair[1], "<ciborium::Value as util::ValueTryAs>::try_as_tag")
+            ok_arg = (pair[0] == "tryok" and is_call(pair[1], "<ciborium::value::Value as util::ValueTryAs>::try_as_tag")
                       and pair[1][2][0][0] == "tryok" and is_call(pair[1][2][0][1], READ)
                       and pair[1][2][0][1][2] == (("param", 0),))
             # guard: tag == Self::TAG on the path to the conversion, != on the path to the error
